@@ -180,6 +180,8 @@ func runC02(c *Ctx) {
 	ruleFirstBytes(c)
 	ruleClearDeadline(c)
 	rulePassthru(c, "PASSTHRU")
+	// "each connection's streams": the handler goroutine relays the connection accepted for it, not a later one
+	ruleLoopVar(c, "OWNCONN", "service")
 }
 
 // C02.HALFCLOSE
